@@ -36,16 +36,18 @@ func vSequences(ops []VOp, depth int) [][]VOp {
 func init() {
 	engine.RegisterCheck("C04", func(r *engine.Run) {
 		r.Level = "fault_enumeration"
-		r.Rule = "CRASH: for every write history (all sequences up to the stated depth over the alphabet, on a store that already holds one committed batch) the process is really SIGKILLed immediately before every durable badger commit of the history (each one separately) and at every hit of every named point in StoreEntities/ExecuteTransaction; the store is reopened in a new process and must equal the reference model after the acknowledged ops or after those plus the in-flight op, satisfy the cross-index invariants, and accept further writes with fresh positions and ids. distinct = distinct canonical recovered states"
+		r.Rule = "CRASH: for every write history (all sequences up to the stated depth over the alphabet, on a store that already holds one committed batch) the process is really SIGKILLed immediately before every durable badger commit of the history (each one separately), at every hit of every named point in StoreEntities/ExecuteTransaction, and - for every asynchronous commit (Txn.CommitWith) the code issues - right after the acknowledgement with that commit not yet in the write-ahead log; three histories with a batch of 1101 entities are included; the store is reopened in a new process and must equal the reference model after the acknowledged ops or after those plus the in-flight op, satisfy the cross-index invariants, and accept further writes with fresh positions and ids. distinct = distinct canonical recovered states"
 		r.Assumptions = []string{"a badger commit is atomic with respect to process kill", "process-kill model: the OS and page cache survive (no power loss)", "the items counter of the meta-entity is outside this property"}
 		pool := model.Pool(0)
 		pi := func(n string) int { return model.PoolIndex(pool, n) }
-		pre := []VOp{{K: "batch", DS: "A", Ents: []VEnt{{"e1", pi("v1r2")}}}}
+		pre := []VOp{{K: "batch", DS: "A", Ents: []VEnt{{"e1", pi("v1r2")}}}, {K: "batch", DS: "B", Ents: []VEnt{{"e3", pi("v1")}}}}
 		alpha := []VOp{
 			{K: "batch", DS: "A", Ents: []VEnt{{"e1", pi("v2")}}},
 			{K: "batch", DS: "A", Ents: []VEnt{{"e1", pi("dv1")}, {"e2", pi("r23")}}},
 			{K: "txn", Parts: map[string][]VEnt{"A": {{"e1", pi("v2r2")}}, "B": {{"e3", pi("r1")}}}},
 			{K: "batch", DS: "B", Ents: []VEnt{{"e1", pi("pq2")}}},
+			// a transaction that only rewrites entities both datasets already hold (no new ids, no counter change)
+			{K: "txn", Parts: map[string][]VEnt{"A": {{"e1", pi("v2")}}, "B": {{"e3", pi("v2")}}}},
 		}
 		depth := 2
 		if !r.Quick() {
@@ -57,5 +59,12 @@ func init() {
 			bases = append(bases, vToMap(CrashSpec{Datasets: vDS, IDs: vIDs, Pre: pre, Hist: h, Kind: "store"}))
 		}
 		engine.RunCrash(r, "c04-store", []string{"worker", "crash-store"}, bases, 0)
+		// large batches (more entities than any plausible internal chunk size of a thousand): still one atomic unit
+		big := VOp{K: "batch", DS: "A", Ents: []VEnt{{"e1", pi("v2")}}, N: 1100}
+		var bigBases []map[string]interface{}
+		for _, h := range [][]VOp{{big}, {alpha[0], big}, {big, alpha[1]}} {
+			bigBases = append(bigBases, vToMap(CrashSpec{Datasets: vDS, IDs: vIDs, Pre: pre, Hist: h, Kind: "store"}))
+		}
+		engine.RunCrash(r, "c04-large-batch", []string{"worker", "crash-store"}, bigBases, 0)
 	})
 }
